@@ -70,13 +70,13 @@ TB_CONFIGS = {
     'thorough': [
         ('cfg3', dict(MaxItems=3, ItemKinds=ALLK, TextOpts=BOOL, TailOpts=BOOL, AttrCounts={0, 1},
                       DeclOpts={E, fs({"p"})}, NsArgs=NS4, MaxSibs=0, **ALLCFG)),
-        ('sibs3', dict(MaxItems=3, ItemKinds=ALLK, TextOpts=BOOL, TailOpts=BOOL, AttrCounts={0, 1}, DeclOpts={E},
+        ('sibs3', dict(MaxItems=3, ItemKinds={"e", "c"}, TextOpts=BOOL, TailOpts=BOOL, AttrCounts={0}, DeclOpts={E},
                        Variants={"lxml"}, RootArgs={"elem", "tree"}, Fragments={"none", "true", "false"},
-                       NsArgs={E, fs({"p"})}, MaxSibs=2)),
+                       NsArgs={E}, MaxSibs=2)),
         ('shape5', dict(MaxItems=5, ItemKinds=ALLK, TextOpts=BOOL, TailOpts=BOOL, AttrCounts={0}, DeclOpts={E},
                         Variants={"etree", "lxml"}, RootArgs={"tree"}, Fragments={"none"}, NsArgs={E}, MaxSibs=0)),
         ('gap3full', dict(MaxItems=3, ItemKinds={"e"}, TextOpts=BOOL, TailOpts=BOOL, AttrCounts={0, 1, 2},
-                          DeclOpts={E, fs({"p"}), fs({"", "q"}), fs({"p", "q"})}, Variants={"etree", "lxml"},
+                          DeclOpts={E, fs({"p"}), fs({"", "q"})}, Variants={"etree", "lxml"},
                           RootArgs={"elem"}, Fragments={"none"},
                           NsArgs=NS4 | {fs({"", "p"})}, MaxSibs=0)),
         ('gap4', dict(MaxItems=4, ItemKinds={"e"}, TextOpts={True}, TailOpts={True}, AttrCounts={0, 2},
@@ -94,9 +94,9 @@ NO_CONFIGS = {
     'thorough': [
         ('ops2', dict(MaxItems=2, ItemKinds={"e", "c"}, TextOpts={True}, TailOpts={True}, AttrCounts={1},
                       DeclOpts={fs({"p"})}, NsArgs={E}, MaxSibs=1, Operands=OPERANDS, MaxSteps=2, **ALLCFG)),
-        ('ops3', dict(MaxItems=3, ItemKinds={"e", "c", "p"}, TextOpts=BOOL, TailOpts={True}, AttrCounts={0, 2},
-                      DeclOpts={E, fs({"p"})}, NsArgs={E}, MaxSibs=0, Operands=OPERANDS - {"all", "top"}, MaxSteps=2,
-                      Variants={"etree", "lxml"}, RootArgs={"elem", "tree"}, Fragments={"none"})),
+        ('ops3', dict(MaxItems=3, ItemKinds={"e", "c"}, TextOpts={True}, TailOpts={True}, AttrCounts={1},
+                      DeclOpts={fs({"p"})}, NsArgs={E}, MaxSibs=0, Operands=OPERANDS - {"all", "top"}, MaxSteps=2,
+                      Variants={"etree", "lxml"}, RootArgs={"elem", "tree"}, Fragments={"none", "false"})),
     ],
 }
 TRACES = {'quick': dict(count=240, lo=10, hi=60), 'thorough': dict(count=2400, lo=10, hi=60)}
@@ -875,6 +875,15 @@ def run_traces(chk: core.Check) -> None:
 
 # ---------------------------------------------------------------------------------------
 
+def shards(name: str, consts: dict):
+    """Thorough configurations are run one variant at a time (bounded TLC output per run)."""
+    if len(consts['Variants']) > 1 and consts['MaxItems'] >= 3:
+        for v in sorted(consts['Variants']):
+            yield f'{name}-{v}', dict(consts, Variants={v})
+    else:
+        yield name, consts
+
+
 TB_ACTIONS = ['Start', 'PreSib', 'MkRoot', 'RootText', 'NextChild', 'ChildText', 'Descend', 'ChildTail', 'Exhausted',
               'Pop', 'Finish', 'PostSib', 'Report']
 
@@ -882,7 +891,9 @@ TB_ACTIONS = ['Start', 'PreSib', 'MkRoot', 'RootText', 'NextChild', 'ChildText',
 def run_treebuild(chk: core.Check) -> None:
     n_oracle = 0
     fired = {a: 0 for a in TB_ACTIONS}
-    for name, consts in TB_CONFIGS[chk.tier]:
+    todo = [sh for name, consts in TB_CONFIGS[chk.tier]
+            for sh in (shards(name, consts) if chk.tier == 'thorough' else [(name, consts)])]
+    for name, consts in todo:
         wd = os.path.join(chk.scratch, 'tb_' + name)
         c = dict(consts, Emit=True)
         cfg = tla.cfg_text(c, spec='Spec', invariants=['TypeOK', 'PopSafe', 'GapSafe', 'Refinement', 'DefOK'])
